@@ -223,6 +223,27 @@ func init() {
 						dur(d)
 					}
 				}
+				// where the natural intermediate products cross a power of two: d*f and n*1e9 around 2^31,
+				// 2^32, 2^53, 2^62, 2^63, 2^64 (and those minus the rounding addends 5e8 / f/2)
+				if jb.f8%8 == 0 {
+					r := jb.f8 / 8
+					for _, k := range []uint{31, 32, 53, 62, 63, 64} {
+						top := new(big.Int).Lsh(big.NewInt(1), k)
+						for _, sub := range []int64{0, 1, 5e8, 1e9, r / 2, r} {
+							x := new(big.Int).Sub(top, big.NewInt(sub))
+							qd := new(big.Int).Div(x, big.NewInt(r)) // durations with d*r near 2^k
+							qn := new(big.Int).Div(x, big.NewInt(1e9)) // counts with n*1e9 near 2^k
+							for dl := int64(-3); dl <= 3; dl++ {
+								if qd.IsInt64() {
+									dur(qd.Int64() + dl)
+								}
+								if qn.IsInt64() {
+									count(qn.Int64() + dl)
+								}
+							}
+						}
+					}
+				}
 				if jb.dense >= 1000 { // every whole second up to 24 h
 					for s := int64(0); s <= 86400; s++ {
 						dur(s * 1e9)
@@ -235,7 +256,7 @@ func init() {
 			c.Sample(c17Case{8 * 1000000, "roundtrip", 86400000000})
 			c.Set("exhaustive", false)
 			c.Set("rates", len(jobs))
-			c.Set("rule", fmt.Sprintf("rates: the 15 standard audio rates and their 7 fractional neighbours r+j/8, every integer rate 1..10^6, the fractional lattice r+j/8 for r<=2000, and j/8 Hz; per rate: every count 0..N (N=%d for standard rates, %d otherwise), every count within the last window before f*86400, +-2 around every rounding tie (first and last 20 ties in range), for Events the images of those counts +-1 ns, the last window before 24 h, the ties, and every whole second up to 24 h for the standard rates; bounded-exhaustive within these windows (the full domain is a continuum x 10^11, hence exhaustive:false); every evaluation is a distinct (rate, function, argument) and non-trivial", denseStd, denseInt))
+			c.Set("rule", fmt.Sprintf("rates: the 15 standard audio rates and their 7 fractional neighbours r+j/8, every integer rate 1..10^6, the fractional lattice r+j/8 for r<=2000, and j/8 Hz; per rate: every count 0..N (N=%d for standard rates, %d otherwise), every count within the last window before f*86400, +-2 around every rounding tie (first and last 20 ties in range), for Events the images of those counts +-1 ns, the last window before 24 h, the ties, every whole second up to 24 h for the standard rates, and (integer rates) +-3 around every argument where d*f or n*10^9 crosses 2^31, 2^32, 2^53, 2^62, 2^63, 2^64 (also minus the rounding addends); bounded-exhaustive within these windows (the full domain is a continuum x 10^11, hence exhaustive:false); every evaluation is a distinct (rate, function, argument) and non-trivial", denseStd, denseInt))
 			c.Assume("rates are multiples of 1/8 Hz so that the oracle is exact integer arithmetic", "float rounding slack: 4 ulp of the exact value")
 		},
 		RunCase: func(c *core.Ctx, raw json.RawMessage) []F { return c17Run(decode[c17Case](raw)) },
